@@ -11,9 +11,9 @@ use crate::arrays::datatype::DataTypeId;
 use crate::arrays::scalar::decimal::{Decimal64Type, Decimal128Type};
 use crate::kani_verif_support::*;
 
-fn any_operand_64(sel: u8, p: u8, s: i8) -> (DataType, u8, i8) {
+fn any_operand(sel: u8, p: u8, s: i8, wide: bool) -> (DataType, u8, i8) {
     match sel % 6 {
-        0 => (DataType::decimal64(DecimalTypeMeta::new(p, s)), p, s),
+        0 => (if wide { DataType::decimal128(DecimalTypeMeta::new(p, s)) } else { DataType::decimal64(DecimalTypeMeta::new(p, s)) }, p, s),
         1 => (DataType::int8(), 3, 0),
         2 => (DataType::int16(), 5, 0),
         3 => (DataType::int32(), 10, 0),
@@ -33,9 +33,8 @@ macro_rules! addsub_type {
             let (s1, s2): (i8, i8) = (kani::any(), kani::any());
             kani::assume(p1 >= 1 && p1 <= $max && s1 >= 0 && (s1 as u8) <= p1);
             kani::assume(p2 >= 1 && p2 <= $max && s2 >= 0 && (s2 as u8) <= p2);
-            let (l, lp, ls) = any_operand_64(kani::any(), p1, s1);
-            let (r, rp, rs) = any_operand_64(kani::any(), p2, s2);
-            let l = if $max == 38 && lp == p1 && ls == s1 { DataType::$mk(DecimalTypeMeta::new(p1, s1)) } else { l };
+            let (l, lp, ls) = any_operand(kani::any(), p1, s1, $max == 38);
+            let (r, rp, rs) = any_operand(kani::any(), p2, s2, $max == 38);
             let res = common_add_sub_decimal_type_info::<$D>(&l, &r);
             let info = match res { Ok(i) => i, Err(e) => { core::mem::forget(e); panic!("type computation failed for legal operands") } };
             let scale = if ls > rs { ls } else { rs };
